@@ -24,8 +24,8 @@ from typing import Dict, List, Optional, Tuple
 
 from engine.src import FunctionInfo, own_nodes, own_nodes_incl_lambda, src_of, AnalysisError
 from engine.affine import lin, Lin, LinErr
-from engine.util import is_self_attr
-from .sem import ctext, paths, split_ifexp, consistent, inline_helpers, complement_norm, truth_of, RAISE
+from engine.util import is_self_attr, kwarg
+from .sem import ctext, paths, split_ifexp, consistent, inline_helpers, complement_norm, truth_of, RAISE, expander, stmt_of
 
 RULES = {
     "C20.a": "plain framing: affine proof of slice lengths, lag/target offsets, bounds and alignment of exogenous rows and weights",
@@ -383,6 +383,32 @@ def _abs_sym(e):
 REMOVED_NUMPY_ALIASES = {"numpy.infty", "numpy.Inf", "numpy.Infinity", "numpy.PINF", "numpy.NINF", "numpy.NaN", "numpy.float_", "numpy.complex_", "numpy.unicode_", "numpy.PZERO", "numpy.NZERO", "np.infty", "np.Inf", "np.NaN", "np.float_"}
 
 
+def check_strided(ck, repo):
+    """windows built with as_strided step through memory, not through elements: the steps
+    must be the array's own strides (a column of a table or every second point of a record is
+    a 1-D array whose consecutive elements are not itemsize bytes apart)"""
+    fi = repo.func(UT, "build_ts_X_y")
+    ex = expander(repo)
+    for fn in [fi] + [f for f in repo.modules[UT].functions.values() if f is not fi]:
+        for c in own_nodes(fn.node):
+            if not (isinstance(c, ast.Call) and src_of(c.func).split(".")[-1] == "as_strided"):
+                continue
+            st = stmt_of(c)
+            arr = c.args[0] if c.args else kwarg(c, "x")
+            strides = kwarg(c, "strides") or (c.args[2] if len(c.args) > 2 else None)
+            if arr is None or strides is None:
+                ck.unknown("C20.a", fn, c, "as_strided without explicit strides")
+                continue
+            t = ex.text(strides, fn, st)
+            a = ex.text(arr, fn, st)
+            if ".itemsize" in t and ".strides" not in t:
+                ck.violated("C20.a", fn, c, f"the windows over {a} step by {t[:80]} bytes, the size of an item, not by {a}.strides: for a series that is a strided view (a column of a 2-D table, every k-th point of a record) the lag columns are read from the memory between the observations, not from the `past` consecutive earlier values")
+            elif f"{a}.strides" in t and ".itemsize" not in t:
+                ck.holds("C20.a", fn, c, f"window steps are {a}.strides")
+            else:
+                ck.unknown("C20.a", fn, c, f"window steps {t[:80]} are not recognisably the strides of {a}")
+
+
 def run(ck):
     repo = ck.repo
     for k, v in RULES.items():
@@ -390,6 +416,7 @@ def run(ck):
     r = check_a(ck, repo)
     check_b(ck, repo, r[0] if r else None)
     check_c(ck, repo)
+    check_strided(ck, repo)
     ck.extra["symbols"] = "n = y.shape[0] = X.shape[0]; past, d1, d2 = model.past/delay1/delay2; i = loop variable; facts proved with d1 symbolic where possible, d1 = 1 for slice lengths"
     ck.require_count("C20.a", 7, "nrow, lags x4, targets x6, ordering, exog, weights")
     ck.require_count("C20.b", 6, "nrow/first, 3 roles x (slice, rows, columns), weights, allocations")
@@ -400,6 +427,7 @@ _U = "mlinsights/timeseries/utils.py"
 _M = "mlinsights/timeseries/metrics.py"
 _PLAIN_T = "            for i in range(model.delay1, model.delay2):\n                dec = model.past - 1\n                new_y[:, i - model.delay1] = y[i + dec : i + nrow + dec]\n"
 WITNESSES = [
+    {"name": "plain-lags-by-itemsize-windows", "file": _U, "rule": "C20.a", "old": "            for i in range(model.past):\n                end = y.shape[0] + i + model.delay1 - 1 - model.delay2 - model.past + 2\n                new_X[:, i + ncol] = y[i:end]\n", "new": "            new_X[:, ncol:] = numpy.lib.stride_tricks.as_strided(y, shape=(nrow, model.past), strides=(y.dtype.itemsize, y.dtype.itemsize))\n"},
     {"name": "plain-target-overlaps-lag", "file": _U, "rule": "C20.a", "old": _PLAIN_T, "new": "            for i in range(model.delay1, model.delay2):\n                dec = model.past - 2\n                new_y[:, i - model.delay1] = y[i + dec : i + nrow + dec]\n"},
     {"name": "plain-target-offset-by-delay2", "file": _U, "rule": "C20.a", "old": _PLAIN_T, "new": "            for i in range(model.delay1, model.delay2):\n                dec = model.past - (model.delay2 - model.delay1)\n                new_y[:, i - model.delay1] = y[i + dec : i + nrow + dec]\n"},
     {"name": "plain-table-dtype-of-exog", "file": _U, "rule": "C20.a", "old": "            new_X = numpy.empty((nrow, ncol + model.past), dtype=y.dtype)\n", "new": "            new_X = numpy.empty((nrow, ncol + model.past), dtype=X.dtype if X is not None else y.dtype)\n"},
